@@ -75,7 +75,38 @@ def run_unit(unit_name, tier, seed):
         res2 = verus.run(path, rlimit=(rl or 10) * 2, seed=seed)
         out['stability'] = dict(seed=seed, verified=res2['verified'], errors=res2['errors'], wall_s=res2['wall_s'],
                                 same=(res2['verified'] == res['verified'] and res2['errors'] == res['errors']))
+        out['vacuity'] = vacuity_probe(unit_name, rl)
     return out
+
+
+def vacuity_probe(unit_name, rl):
+    """thorough tier: regenerate the unit with an `assert(false)` probe at the normal exit and before every statement-position `return` of
+    every verified function (contracts unchanged) and require that EVERY probe FAILS.  A probe that verifies marks an exit no state can reach
+    under the preconditions, loop clauses and callee contracts: what is proved at that exit is vacuous."""
+    import subprocess
+    code = ('import sys, json; sys.path.insert(0, %r); sys.path.insert(0, %r); import importlib, verus; m = importlib.import_module(%r); u = m.build(); '
+            'p, meta = u.write(%r); r = verus.run(p, rlimit=%r, extra=["--multiple-errors", "64"]); '
+            'lines = open(p).read().split("\\n"); probes = {i + 1: l.split("@vacuity-probe")[1].strip() for i, l in enumerate(lines) if "@vacuity-probe" in l}; '
+            'failed = [s["l0"] for d in r["diags"] if d["kind"] == "assert" for s in d["spans"]]; '
+            'print(json.dumps(dict(fe=r["front_end_error"], msgs=r["front_end_msgs"][:3], probes=probes, failed=failed)))'
+            % (HERE, os.path.join(HERE, 'units'), unit_name, os.path.join(VERIF, '.cache', 'vacuity'), rl))
+    env = dict(os.environ, VERIF_VACUITY='1')
+    try:
+        p = subprocess.run([sys.executable, '-c', code], env=env, capture_output=True, text=True, timeout=1200)
+        d = json.loads(p.stdout.strip().split('\n')[-1])
+    except Exception as e:
+        return dict(status='undecided', reason='vacuity probe could not run: %s' % e)
+    if d['fe']:
+        return dict(status='undecided', reason='vacuity probe rejected by the front end: ' + '; '.join(d['msgs']))
+    failed = set(d['failed'])
+    by_fn = {}
+    for ln, fn in d['probes'].items():
+        by_fn.setdefault(fn, []).append(int(ln) in failed)
+    # a function is vacuous when NONE of its exits is reachable; single unreachable exits are dead code in the program itself
+    # (e.g. three branches of classifier::pick_tier behind `max_pm > 850` can never run) and are only reported
+    vac = sorted(fn for fn, fl in by_fn.items() if not any(fl))
+    dead = sorted(fn for fn, fl in by_fn.items() if any(fl) and not all(fl))
+    return dict(status='ok', probes=len(d['probes']), functions=len(by_fn), vacuous=vac, functions_with_an_unreachable_exit=dead)
 
 
 def fn_range(meta, qname, line):
@@ -134,6 +165,15 @@ def main(argv):
         return 2
     pid = argv[1]
     tier = argv[2] if len(argv) > 2 else os.environ.get('VERIF_TIER', 'quick')
+    replay_ob = None
+    if tier == '--replay':
+        # `./check Cxx --replay <file>`: re-decide the property on the CURRENT tree and say whether the recorded obligation fails again.
+        # (Verus gives no input to re-execute; a Kani record carries its concrete playback test in the file.)
+        try:
+            replay_ob = json.load(open(argv[3]))['obligation']
+        except Exception as e:
+            print('cannot read replay file:', e)
+            return 2
     if tier not in ('quick', 'thorough'):
         tier = 'quick'
     seed = int(os.environ.get('VERIF_SEED', '1') or 1)
@@ -236,6 +276,17 @@ def main(argv):
                 # a helper whose (untagged) contract is what callers carrying this property were verified against
                 undecided.append('%s: the contract of helper %s no longer verifies (%s at gen line %s); functions carrying %s obligations '
                                  'call it and were checked against that contract, so they are not decided' % (un, fn, d['msg'], d['spans'][0]['l0'] if d['spans'] else '?', pid))
+        # vacuity probe (thorough tier)
+        vac = r.get('vacuity')
+        if vac:
+            if vac.get('status') != 'ok':
+                undecided.append('%s: %s' % (un, vac.get('reason')))
+            for q in vac.get('vacuous', []):
+                ovq = meta['overlays'].get(q, {})
+                if pid in ovq.get('props', []) or any(t and pid in tag_props(t) for t, _ in ovq.get('ensures', [])) \
+                        or any(pid in tag_props(t) for ln, ts in meta['tags'].items() for t in ts if fn_range(meta, q, int(ln))):
+                    undecided.append('%s: VACUOUS: %s still verifies with its postcondition replaced by `false` (contradictory preconditions or loop '
+                                     'clauses): its %s obligations prove nothing' % (un, q, pid))
         # per-function evidence
         fmap = {f['function'].split('::', 1)[-1]: f for f in res['functions']}
         for p in meta['provenance']:
@@ -314,7 +365,7 @@ def main(argv):
             units={un: dict(status=results[un]['status'], wall_s=round(results[un]['wall_s'], 2),
                             verified=results[un].get('res', {}).get('verified'), errors=results[un].get('res', {}).get('errors'),
                             gen_sha256=results[un].get('meta', {}).get('sha256'),
-                            stability=results[un].get('stability')) for un in units},
+                            stability=results[un].get('stability'), vacuity_probe=results[un].get('vacuity')) for un in units},
             bounded=(extra or {}).get('bounded', {}),
             audits=(extra or {}).get('audits', []),
             kani_time_s=(extra or {}).get('kani_time_s', {}),
@@ -333,6 +384,10 @@ def main(argv):
         print(ln)
     print('%s %s: obligations=%d discharged=%d violations=%d known=%d undecided=%d wall=%.1fs' % (
         pid, tier, n_ob, n_dis, nviol, len(known_hits), len(undecided), time.time() - t0))
+    if replay_ob:
+        st = obligations.get(replay_ob, {}).get('status')
+        print('REPLAY obligation=%s : %s' % (replay_ob, {'failed': 'REPRODUCED (fails again on the current tree)', 'discharged': 'not reproduced (discharged on the current tree)',
+                                                          'known-finding': 'reproduced (recorded known finding)'}.get(st, 'not generated on the current tree (undecided)')))
     if nviol:
         return 1
     if undecided:
